@@ -11,27 +11,38 @@ From Sge Require Import Lib.Dec Model.Types Model.Reward Proofs.RewardInv.
 Import ListNotations.
 Open Scope Z_scope.
 
-(* ---- (a) pool conservation ------------------------------------------------------------------------------------
-   The full statement
-       C12_pool :  forall ops s, rinv s -> rinv (rrun s ops)
-   (rinv s = pool_eq s /\ rwf s;  pool_eq s : bget (r_bank s) REWARDPOOL = sum over campaigns of
-   total - withdrawn - spent;  rwf s : promoters are key holders, subaccount ids are counters)
-   is FALSE for the code as it is (finding D7): CreateCampaignPayload.Validate and the reward types'
-   ValidateCampaign accept a negative component next to a positive one; GrantReward charges the campaign
-   main + sub while DistributeRewards pays max(main,0) + max(sub,0).  What is proved instead: *)
+(* ---- (a) pool conservation --------------------------------------------------------------------------------------
+   cinv s = pool_eq s /\ rwf s /\ sguard s, where
+     pool_eq s : bget (r_bank s) REWARDPOOL = sum over campaigns of total - withdrawn - spent
+     rwf s     : promoters are key holders, subaccount ids are counters (book-keeping well-formedness)
+     sguard s  : no STORED campaign has a negative amount or percentage, no recorded bet a negative amount.
+   sguard is an invariant, not a hypothesis about campaign-creating operations: CreateCampaignPayload.Validate
+   (as repaired in /repo commit f6ab6fd) refuses every negative component (payload_valid_nonneg).  The ONLY hypothesis
+   about operations is oguard, which constrains RSYNCBET alone: the bet amount the harness reads from the real bet store
+   is not negative (RSYNCBET is a modelled interface, not code of x/reward).
+   History: before the repair this statement was false (finding D7; the refuting history is kept below as
+   C12_regression_D7 and in corpus/C12/C12-D7-negative-main.txt, where CCREATE is now rejected). *)
+Theorem C12_pool : forall ops s, Forall oguard ops -> cinv s -> cinv (rrun s ops).
+Proof. exact rrun_pool. Qed.
+Print Assumptions C12_pool.
 
-(* a concrete reachable history from genesis after which the pool holds 990 while the campaigns still
-   promise 995 (replayed on the real application: corpus/C12/C12-D7-negative-main.txt) *)
-Theorem C12_pool_refuted : exists s ops, rinv s /\ sguard s /\ avail_nonneg s /\ ~ pool_eq (rrun s ops).
-Proof. exact pool_refuted_strong. Qed.
-Print Assumptions C12_pool_refuted.
+(* from genesis (empty module account), for every history: the pool balance IS the sum of the availables *)
+Theorem C12_pool_genesis : forall bk t l ops, bget bk REWARDPOOL = 0 -> Forall oguard ops ->
+  bget (r_bank (rrun (rinit bk t l) ops)) REWARDPOOL = camps_sum (r_camps (rrun (rinit bk t l) ops)).
+Proof. exact rrun_pool_genesis. Qed.
+Print Assumptions C12_pool_genesis.
 
-(* the positive theorem under the explicit guard "no reward component (amount or percentage) of any created
-   campaign is negative" (oguard on operations, sguard on the starting state) *)
+(* the same fact in the form it had while D7 was open (kept; now equivalent to C12_pool) *)
 Theorem C12_pool_partial : forall ops s, Forall oguard ops -> rinv s -> sguard s ->
   rinv (rrun s ops) /\ sguard (rrun s ops).
 Proof. exact rrun_pool_partial. Qed.
 Print Assumptions C12_pool_partial.
+
+(* validation is what establishes the invariant on stored campaigns *)
+Theorem C12_validation_nonneg : forall now st en cat ty at_ ra, payload_valid now st en cat ty at_ ra = true ->
+  optnn (rp_main ra) /\ optnn (rp_sub ra) /\ optnn (rp_mainpct ra) /\ optnn (rp_subpct ra).
+Proof. exact payload_valid_nonneg. Qed.
+Print Assumptions C12_validation_nonneg.
 
 (* genesis satisfies every hypothesis (the module account starts empty) *)
 Theorem C12_genesis : forall bk t l, bget bk REWARDPOOL = 0 ->
@@ -98,9 +109,9 @@ Proof. exact withdraw_owner. Qed.
 Print Assumptions C12_owner_withdraw.
 
 (* ---- non-vacuity ------------------------------------------------------------------------------------------------------------ *)
-(* C12_pool_partial / C12_avail_nonneg / C12_genesis: a guarded history from genesis in which a campaign is created,
-   a reward granted, the campaign topped up and partly withdrawn, every step succeeding *)
-Example C12_partial_witness :
+(* C12_pool / C12_pool_genesis / C12_pool_partial / C12_avail_nonneg / C12_genesis: a history from genesis in which a
+   campaign is created, a reward granted, the campaign topped up and partly withdrawn, every step succeeding *)
+Example C12_pool_witness :
   Forall oguard (good_ops ++ [good_grant; good_update; good_withdraw; REnd]) /\
   bget (r_bank wit_state) REWARDPOOL = 0 /\
   let s := rrun wit_state good_ops in
@@ -108,6 +119,24 @@ Example C12_partial_witness :
   (snd (rstep s good_grant), snd (rstep s1 good_update), snd (rstep s2 good_withdraw)) = (ROk, ROk, ROk) /\
   (bget (r_bank s3) REWARDPOOL, camps_sum (r_camps s3)) = (1185, 1185).
 Proof. split; [exact good_ops_guard|]. vm_compute. repeat split; reflexivity. Qed.
+
+(* the RSYNCBET hypothesis is satisfiable and the bet-bonus path is live: 10% + 25% of min(2000, 500) *)
+Example C12_bonus_witness :
+  Forall oguard (bonus_ops ++ [bonus_grant]) /\
+  let s := rrun wit_state bonus_ops in let s1 := fst (rstep s bonus_grant) in
+  snd (rstep s bonus_grant) = ROk /\
+  (bget (r_bank s1) 1, bget (r_bank s1) 1001, bget (r_bank s1) REWARDPOOL, camps_sum (r_camps s1))
+  = (1000050, 125, 99825, 99825).
+Proof. split; [exact bonus_ops_guard|]. vm_compute. repeat split; reflexivity. Qed.
+
+(* regression for finding D7: the history that used to leave 990 in the pool against 995 promised now stops at
+   validation (CCREATE and the dependent grant are refused) and the invariant holds after it *)
+Example C12_regression_D7 :
+  map (fun k => snd (rstep (rrun wit_state (firstn k wit_ops)) (nth k wit_ops REnd))) [0%nat; 1%nat; 2%nat; 3%nat; 4%nat]
+  = [ROk; ROk; RErr; RErr; ROk] /\
+  (bget (r_bank (rrun wit_state wit_ops)) REWARDPOOL, camps_sum (r_camps (rrun wit_state wit_ops))) = (0, 0) /\
+  r_camps (rrun wit_state wit_ops) = [].
+Proof. vm_compute. repeat split; reflexivity. Qed.
 
 (* C12_once / C12_grant_guard: the hypothesis is satisfiable, and the replayed uid is then refused *)
 Example C12_grant_witness :
@@ -121,11 +150,4 @@ Example C12_owner_witness :
   let s := rrun wit_state (good_ops ++ [good_grant]) in
   snd (rstep s good_update) = ROk /\ snd (rstep s good_withdraw) = ROk /\
   snd (rstep s (RWithdraw 1 wit_tk 0 300 0)) = RErr /\ snd (rstep s (RUpdateCampaign 1 wit_tk 0 500 2000 true)) = RErr.
-Proof. vm_compute. repeat split; reflexivity. Qed.
-
-(* C12_pool_refuted: the refuting history passes every validation of the model (all its steps succeed) *)
-Example C12_refuted_witness_runs :
-  map (fun k => snd (rstep (rrun wit_state (firstn k wit_ops)) (nth k wit_ops REnd))) [0%nat; 1%nat; 2%nat; 3%nat; 4%nat]
-  = [ROk; ROk; ROk; ROk; ROk] /\
-  bget (r_bank (rrun wit_state wit_ops)) REWARDPOOL = 990 /\ camps_sum (r_camps (rrun wit_state wit_ops)) = 995.
 Proof. vm_compute. repeat split; reflexivity. Qed.
